@@ -135,7 +135,7 @@ class Recording:
                 "stats": None if stats is None else dict(stats),
                 "step_size": None if integ is None else integ.step_size,
                 "metric": "n/a" if system is None else metric_fingerprint(system),
-                "scale": getattr(inner, "scale", None),
+                "scale": getattr(inner, "scale", getattr(inner, "amount", None)),
                 "task": threading.current_thread().name,
             }
             if run.log_metric_arrays and system is not None:
@@ -179,7 +179,7 @@ class RecordingAdapter:
         return {
             "step_size": None if integ is None else integ.step_size,
             "metric": "n/a" if system is None else metric_fingerprint(system),
-            "scale": getattr(transition, "scale", None),
+            "scale": getattr(transition, "scale", getattr(transition, "amount", None)),
         }
 
     def _log(self, ev, transition, before, **kw):
@@ -189,6 +189,7 @@ class RecordingAdapter:
                     "ev": ev,
                     "seq": len(RUN.entries),
                     "adapter": self._label,
+                    "trans_key": transition.__dict__.get("_key") if hasattr(transition, "__dict__") else None,
                     "chain": _tl("chain"),
                     "call": _tl("call_id"),
                     "before": before,
@@ -372,6 +373,26 @@ class NoStatsTransition:
     def sample(self, state, rng):
         state.pos = state.pos + self.amount * rng.standard_normal(state.pos.shape)
         return state, None
+
+
+class JitterAmountAdapter:
+    """Fast adapter for NoStatsTransition.amount; adapts from the chain state only (the
+    transition it is keyed on returns no statistics)."""
+
+    is_fast = True
+
+    def initialize(self, chain_state, transition):  # noqa: ARG002
+        return {"iter": 0, "sum_abs": 0.0}
+
+    def update(self, adapt_state, chain_state, trans_stats, transition):  # noqa: ARG002
+        adapt_state["iter"] += 1
+        adapt_state["sum_abs"] += float(np.mean(np.abs(chain_state.pos)))
+        transition.amount = 0.01 + 0.05 * adapt_state["sum_abs"] / adapt_state["iter"]
+
+    def finalize(self, adapt_states, chain_states, transition, rngs):  # noqa: ARG002
+        lst = [adapt_states] if isinstance(adapt_states, dict) else list(adapt_states)
+        n = sum(a["iter"] for a in lst)
+        transition.amount = 0.02 if n == 0 else 0.01 + 0.05 * sum(a["sum_abs"] for a in lst) / n
 
 
 class RWScaleAdapter:
@@ -614,6 +635,7 @@ def build_adapters(names):
             "var": A.OnlineVarianceMetricAdapter,
             "cov": A.OnlineCovarianceMetricAdapter,
             "rwscale": RWScaleAdapter,
+            "jitamount": JitterAmountAdapter,
         }[kind](**kw)
         out.append(RecordingAdapter(inner, f"{kind}#{i}"))
     return out
@@ -779,7 +801,15 @@ def run_scenario_raw(scn) -> Record:
         if ad != "default":
             adl = build_adapters(ad) if ad is not None else None
             if generic:
-                kwargs["adapters"] = None if adl is None else ({"rw": adl} if adl else {})
+                if adl is None:
+                    kwargs["adapters"] = None
+                else:
+                    d = {}
+                    for a_ in adl:
+                        d.setdefault("jit" if a_._label.startswith("jitamount") else "rw", []).append(a_)  # noqa: SLF001
+                    if "jit" in d and "jit" not in sampler.transitions:
+                        d.pop("jit")
+                    kwargs["adapters"] = d
             else:
                 kwargs["adapters"] = adl
         elif generic:
@@ -799,6 +829,12 @@ def run_scenario_raw(scn) -> Record:
         rec.sampler = sampler
         _t0 = list(sampler.transitions.values())[-1] if scn["sampler"] != "generic" else sampler.transitions["rw"]
         _integ = getattr(_t0, "integrator", None)
+        rec.initial_params_by_key = {
+            k: {"step_size": getattr(getattr(t, "integrator", None), "step_size", None),
+                "metric": "n/a" if getattr(t, "system", None) is None else metric_fingerprint(t.system),
+                "scale": getattr(t, "scale", getattr(t, "amount", None))}
+            for k, t in sampler.transitions.items()
+        }
         rec.initial_params = {
             "step_size": None if _integ is None else _integ.step_size,
             "metric": "n/a" if system is None else metric_fingerprint(system),
@@ -979,7 +1015,7 @@ def random_scenario(rng, *, profile="mixed", run_seed=None):
         scn["second_transition"] = rng.random() < 0.5
         scn["init"] = rng.choice(["dict", "state"])
         scn["trace"] = rng.choice(["none", "empty", "pos", "two_overlap", "scalar", "tag", "three", "odd_keys", "override_dtype"])
-        scn["adapters"] = rng.choice([None, [], ["rwscale"]])
+        scn["adapters"] = rng.choice([None, [], ["rwscale"], ["rwscale", "jitamount"], ["jitamount"]])
         if rng.random() < 0.3:
             scn["monitor_stats"] = {"rw": ["accepted"]}
     else:
